@@ -7,9 +7,10 @@ import subprocess
 
 V = "/verif"
 NOTE = ("Trusted: Coq 8.16.1 kernel (no native_compute, no axioms: every pinned theorem prints 'Closed under the global context'); "
-        "the hand-written Gallina model coq/theories/*.v, tied to /repo's working tree on every run in two ways: (1) 114 functions "
-        "(single-element core, truncation, fills, the three iterators, drain, the I/O traits) are regenerated from src/*.rs by the "
-        "translator tools/rs2coq_core and proved equal to the hand-written definitions (coq/gen/CoreGenProofs.v); (2) the "
+        "the hand-written Gallina model coq/theories/*.v, tied to /repo's working tree on every run in two ways: (1) 150 of the crate's "
+        "159 functions (all but boxed, to_vec, From<[T;M]>, by-value into_iter/IntoIter::new, write_uninit_slice_cloned) are regenerated "
+        "from src/*.rs by the translator tools/rs2coq_core (its table of 50 std renderings is trusted) and proved equal to the "
+        "hand-written definitions (coq/gen/CoreGenProofs.v); (2) the "
         "correspondence check (extracted model, ExtrOcamlBasic only, validated against vm_compute on every run, vs the real crate built "
         "with --cfg circular_buffer_verif, same cases, projections diffed). The translators, the Rust harness, case generators and differ "
         "are trusted; std/rustc semantics listed in DESIGN.md 3.4 are modelled, not verified. "
